@@ -666,8 +666,15 @@ class Polygon(Shape2D):
         q_dot_norm = np.dot(q, self.normal)
         q = q - q_dot_norm[:, np.newaxis] * self.normal
         q_sqs = np.sum(q * q, axis=-1)
-        zero_q = np.isclose(q_sqs, 0)
-        form_factor[zero_q] = self.area
+        # For (nearly) vanishing in-plane q the edge formula below loses all of
+        # its digits, so the expansion about the centroid is used instead. It is
+        # accurate to second order in |q| * size, and the threshold is relative
+        # to the size of the polygon.
+        size = np.max(np.ptp(self._vertices, axis=0))
+        zero_q = q_sqs * size**2 < 1e-10
+        form_factor[zero_q] = self.area * np.exp(
+            -1j * np.dot(q[zero_q], self.centroid)
+        )
 
         # Add the contribution over all edges of the face.
         verts = self._vertices
@@ -677,12 +684,9 @@ class Polygon(Shape2D):
 
         q_nonzero_broadcast = q[np.newaxis, ~zero_q, :]
         edges_cross_qs = np.cross(edges[:, np.newaxis, :], q_nonzero_broadcast)
-        # Due to oddities of numpy broadcasting, many singleton dimensions can persist
-        # and must be squeezed out.
-        midpoints_dot_qs = np.inner(
-            midpoints[:, np.newaxis, :], q_nonzero_broadcast
-        ).squeeze()
-        edges_dot_qs = np.inner(edges[:, np.newaxis, :], q_nonzero_broadcast).squeeze()
+        # Shape (num_edges, num_nonzero_q), for any number of wave vectors.
+        midpoints_dot_qs = np.inner(midpoints, q[~zero_q])
+        edges_dot_qs = np.inner(edges, q[~zero_q])
         f_ns = (
             np.dot(edges_cross_qs, self.normal)
             # Note that np.sinc(x) gives sin(pi*x)/(pi*x)
@@ -691,7 +695,9 @@ class Polygon(Shape2D):
         )
         # Apply translational shift relative to the center of the
         # polygonal face relative to its centroid.
-        form_factor[~zero_q] = -np.sum(
+        # The line integral runs along the listed vertices, so its sign follows
+        # their orientation about the normal.
+        form_factor[~zero_q] = -np.sign(self.signed_area) * np.sum(
             f_ns * 1j * np.exp(-1j * midpoints_dot_qs), axis=0
         )
         form_factor *= density
